@@ -59,6 +59,34 @@ def run(prop, tier, seed, ctx):
         ctx.violation("C19|history|%s|%s" % (m["kind"], shape),
                       "after %s TIFA is silent but types %s as %s while the run-time value holds %s" % (
                           " ; ".join(m.get("source", [])[3:-1]), m.get("var"), m.get("tifa", m.get("detail")), m.get("runtime")), m)
+    # ---- names bound again before they are operated on (specs/TypeRebind.tla)
+    rcfg = "MC_TypeRebind_q.cfg" if tier == "quick" else "MC_TypeRebind_t.cfg"
+    rres = tlc.run("TypeRebind", rcfg, workers=8, timeout=900)
+    tlc.require_ok(rres, rcfg)
+    ctx.add_tlc(rres, "rebinding histories " + rcfg)
+    num = 300 if tier == "quick" else 6000
+    rsim = tlc.run("TypeRebind", "SIM_TypeRebind_deep.cfg", workers=4, timeout=600,
+                   simulate="num=%d" % num, extra=["-depth", "8", "-seed", str(2000 + seed)])
+    tlc.require_ok(rsim, "simulation TypeRebind")
+    ctx.add_tlc(rsim, "simulation (%d rebinding histories of up to 4 re-bindings)" % (4 * num))
+    if len(rsim.records) < num:
+        raise MachineryError("simulation exported only %d rebinding histories" % len(rsim.records))
+    # ... and numbers only, with an operand that stays an int: where an int-or-float result is operated on again
+    nres = tlc.run("TypeRebind", "MC_TypeRebind_num_q.cfg", workers=8, timeout=900)
+    tlc.require_ok(nres, "MC_TypeRebind_num_q.cfg")
+    ctx.add_tlc(nres, "rebinding histories over numbers MC_TypeRebind_num_q.cfg")
+    runiq = {json.dumps(r["hist"]): r for r in list(rres.records) + list(nres.records) + list(rsim.records)}
+    rcases = list(enumerate(runiq.values()))
+    rmis = shard_map("bind.typeops", "rebind_chunk", rcases)
+    ctx.cov["replayed_cases"] += len(rcases)
+    ctx.count(len(rcases), (k for k in runiq))
+    ctx.sample({"kind": "rebinding history", "hist": rcases[len(rcases) // 2][1]["hist"]})
+    for m in rmis:
+        if m["kind"] == "environment":
+            raise MachineryError("TypeRebind's classes disagree with CPython: %s" % m)
+        ctx.violation("C19|rebind|%s|%s" % (m["kind"], m["shape"]),
+                      "%s: %s (%s)" % (" ; ".join(m["source"][:-1]), m["kind"], m.get("detail") or m.get("classes") or
+                                       "TIFA types %s as %s, run-time class %s" % (m.get("var"), m.get("tifa"), m.get("runtime"))), m)
     # ---- value typing
     from bind.typeops import value_shapes
     n = len(value_shapes())
